@@ -575,3 +575,72 @@ Proof.
     replace (buf ++ (b ++ bs) ++ ext) with ((buf ++ b) ++ bs ++ ext) by (now rewrite <- !app_assoc).
     rewrite Hdec. reflexivity.
 Qed.
+Lemma take_exact_bytes_ok : forall n (l a r : list N), take_exact n l = Some (a, r) -> bytes_ok l = true -> bytes_ok a = true /\ bytes_ok r = true.
+Proof.
+  intros n l a r H Hb. apply take_exact_spec in H as [-> _].
+  unfold bytes_ok in *. rewrite forallb_app in Hb. now apply andb_true_iff in Hb.
+Qed.
+
+Lemma bytes_ok_dropN n (l : list N) : bytes_ok l = true -> bytes_ok (dropN n l) = true.
+Proof.
+  unfold bytes_ok, dropN. intros H. rewrite forallb_forall in *. intros x Hx. apply H.
+  rewrite <- (firstn_skipn (N.to_nat n) l). apply in_or_app. now right.
+Qed.
+
+(* whatever the decoder returns is a name the encoder accepts *)
+Lemma get_domain_into_wf buf : bytes_ok buf = true ->
+  forall fuel rest off depth alen ls nxt,
+    bytes_ok rest = true -> alen + 1 <= 255 ->
+    get_domain_into fuel buf rest off depth alen = Ok (ls, nxt) ->
+    forallb wf_label ls = true /\ alen + wire_len ls <= 255.
+Proof.
+  intros Hbuf. induction fuel as [|f IH]; intros rest off depth alen ls nxt Hr Ha H; [discriminate|].
+  simpl in H. destruct rest as [|p r]; [discriminate|].
+  simpl in Hr. apply andb_true_iff in Hr as [Hp Hr].
+  destruct (p =? 0) eqn:E0.
+  - inversion H; subst. split; [reflexivity|unfold wire_len; simpl; lia].
+  - apply N.eqb_neq in E0. destruct (p <? 64) eqn:E1.
+    + apply N.ltb_lt in E1.
+      destruct (take_exact (N.to_nat p) r) as [[l r']|] eqn:Et; [|discriminate].
+      destruct (MAXNAME <? alen + 1 + p + 1) eqn:E2; [discriminate|]. apply N.ltb_ge in E2. unfold MAXNAME in E2.
+      destruct (get_domain_into f buf r' (off + 1 + p) depth (alen + 1 + p)) as [[ls' nxt']| |] eqn:Er; try discriminate.
+      inversion H; subst.
+      destruct (take_exact_bytes_ok _ _ _ _ Et Hr) as [Hl Hr'].
+      apply take_exact_spec in Et as [_ Hlen].
+      assert (Ha' : alen + 1 + p + 1 <= 255) by lia.
+      destruct (IH _ _ _ _ _ _ Hr' Ha' Er) as [Hw Hlen'].
+      assert (Hll : lenN l = p) by (unfold lenN; rewrite Hlen; lia).
+      split.
+      * simpl. rewrite Hw, andb_true_r. unfold wf_label. rewrite Hll, Hl.
+        replace (0 <? p) with true by (symmetry; apply N.ltb_lt; lia).
+        replace (p <? 64) with true by (symmetry; apply N.ltb_lt; lia). reflexivity.
+      * rewrite wire_len_cons, Hll. lia.
+    + destruct (192 <=? p); [|discriminate].
+      destruct (LIMIT <? depth); [discriminate|].
+      destruct r as [|lo r2]; [discriminate|].
+      destruct (get_domain_into f buf (dropN ((p - 192) * 256 + lo) buf) ((p - 192) * 256 + lo) (depth + 1) alen)
+        as [[ls' nxt']| |] eqn:Er; try discriminate.
+      inversion H; subst. refine (IH _ _ _ _ _ _ _ Ha Er). apply bytes_ok_dropN. exact Hbuf.
+Qed.
+
+Lemma get_domain_wf buf off n nxt :
+  bytes_ok buf = true -> get_domain buf off = Ok (n, nxt) -> wf_name n = true.
+Proof.
+  intros Hb. unfold get_domain. generalize NAME_FUEL. intros fuel H.
+  assert (H0 : 0 + 1 <= 255) by lia.
+  destruct (get_domain_into_wf buf Hb _ _ _ _ _ _ _ (bytes_ok_dropN _ _ Hb) H0 H) as [H1 H2].
+  unfold wf_name. rewrite H1. simpl. apply N.leb_le. lia.
+Qed.
+
+(* decode . encode . decode = decode on names: a name the decoder returned
+   (from any octets whatsoever) is written by the encoder at any later place,
+   against any valid dictionary, such that the decoder returns it again *)
+Lemma decoded_name_reencodes b off n nxt buf kids :
+  bytes_ok b = true -> get_domain b off = Ok (n, nxt) ->
+  0 < lenN buf -> Forall (tree_ok buf []) kids ->
+  exists e kids', push_name (lenN buf) kids n = Ok (e, kids') /\
+    Forall (tree_ok (buf ++ e) []) kids' /\
+    get_domain (buf ++ e) (lenN buf) = Ok (n, lenN buf + lenN e).
+Proof.
+  intros Hb Hd Hpos Hk. apply name_roundtrip; auto. eapply get_domain_wf; eauto.
+Qed.
